@@ -95,9 +95,21 @@ where
             // before we can do anything else.
             if buffered_req.is_some() && server.is_some() {
                 let si = &mut server.as_mut().as_pin_mut().unwrap().0;
-                // Unwrapping is safe as the underlying sink is guaranteed not to error
-                ready!(si.poll_ready_unpin(cx)).unwrap();
-                si.start_send_unpin(buffered_req.take().unwrap()).unwrap();
+
+                match ready!(si.poll_ready_unpin(cx)) {
+                    Ok(()) => {
+                        // The request is dropped if it cannot be encoded, e.g. because the routing
+                        // header pushed it over the frame size limit
+                        if let Err(e) = si.start_send_unpin(buffered_req.take().unwrap()) {
+                            error!("Failed to send request to replier: {e:?}");
+                        }
+                    }
+                    // A broken replier is unbound so that another replier can take its place
+                    Err(e) => {
+                        error!("Unbinding broken replier: {e:?}");
+                        *server = None;
+                    }
+                }
             }
 
             // If we've got an error buffered already, we need to write it to the client
@@ -187,9 +199,6 @@ where
                     }
                     // Server has finished
                     Poll::Ready(None) => {
-                        let si = &mut server.as_mut().as_pin_mut().unwrap().0;
-                        ready!(si.poll_flush_unpin(cx)).unwrap();
-                        ready!(sink.as_mut().poll_flush(cx)).unwrap();
                         *server = None;
                     }
                     // No messages are available at this time
@@ -233,7 +242,10 @@ where
 
                     if server.is_some() {
                         let si = &mut server.as_mut().as_pin_mut().unwrap().0;
-                        ready!(si.poll_flush_unpin(cx)).unwrap();
+                        if let Err(e) = ready!(si.poll_flush_unpin(cx)) {
+                            error!("Unbinding broken replier: {e:?}");
+                            *server = None;
+                        }
                     }
                 }
                 // No messages are available at this time
@@ -248,7 +260,10 @@ where
 
                 if server.is_some() {
                     let si = &mut server.as_mut().as_pin_mut().unwrap().0;
-                    ready!(si.poll_flush_unpin(cx)).unwrap();
+                    if let Err(e) = ready!(si.poll_flush_unpin(cx)) {
+                        error!("Unbinding broken replier: {e:?}");
+                        *server = None;
+                    }
                 }
 
                 return Poll::Pending;
